@@ -1,0 +1,17 @@
+//go:build verif
+
+package coordinator
+
+// VerifPoolStats reports Size() (tokens taken) and Len() (idle connections) of the
+// connection pool the MetaExecutor keeps for nodeID. Read-only; for the external
+// verification harness.
+func (e *MetaExecutor) VerifPoolStats(nodeID uint64) (size, idle int, ok bool) {
+	if e.pool == nil {
+		return 0, 0, false
+	}
+	p, ok := e.pool.getPool(nodeID)
+	if !ok {
+		return 0, 0, false
+	}
+	return p.Size(), p.Len(), true
+}
